@@ -392,8 +392,19 @@ void SetDimension::label(const std::string &label) {
 }
 
 
+// Positions from 2^52 on (and NaN) are not converted: beyond that point a double cannot tell
+// neighbouring indices apart.
+static const double POSITION_LIMIT = 4503599627370496.0;
+
+
 boost::optional<ndsize_t> getSetIndex(const double position, std::vector<std::string> labels, const PositionMatch match) {
     boost::optional<ndsize_t> index;
+    if (!(position < POSITION_LIMIT)) {
+        if (position >= POSITION_LIMIT && labels.size() > 0 && (match == PositionMatch::Less || match == PositionMatch::LessOrEqual)) {
+            index = labels.size() - 1;
+        }
+        return index;
+    }
     if (position < 0 && (match != PositionMatch::Greater && match != PositionMatch::GreaterOrEqual)) {
         return index;
     }
@@ -406,11 +417,11 @@ boost::optional<ndsize_t> getSetIndex(const double position, std::vector<std::st
         }
         
 
-        bool equals = fabs(tmp - position) <= numeric_limits<double>::epsilon();
+        bool equals = tmp == position;
         index = (match == PositionMatch::Greater && equals) ? static_cast<ndsize_t>(tmp + 1) : static_cast<ndsize_t>(tmp);
     } else if (match == PositionMatch::Less || match == PositionMatch::LessOrEqual) {
         tmp = floor(position);
-        bool equals = fabs(tmp - position) <= numeric_limits<double>::epsilon();
+        bool equals = tmp == position;
         if (match == PositionMatch::Less && equals) { 
             if (tmp >= 1) {
                 index = static_cast<ndsize_t>(tmp - 1);
@@ -420,7 +431,7 @@ boost::optional<ndsize_t> getSetIndex(const double position, std::vector<std::st
         }
     } else {
         tmp = round(position);
-        if (fabs(tmp - position) <= numeric_limits<double>::epsilon()) {
+        if (tmp == position) {
             index = static_cast<ndsize_t>(tmp);
         }
     }
@@ -791,6 +802,12 @@ DataFrameDimension::DataFrameDimension(const DataFrameDimension &other)
 
 boost::optional<ndsize_t> getDataFrameIndex(const double position, const ndsize_t tick_count, const PositionMatch match) {
     boost::optional<ndsize_t> index;
+    if (!(position < POSITION_LIMIT)) {
+        if (position >= POSITION_LIMIT && tick_count > 0 && (match == PositionMatch::Less || match == PositionMatch::LessOrEqual)) {
+            index = tick_count - 1;
+        }
+        return index;
+    }
     if (position < 0 && (match != PositionMatch::Greater && match != PositionMatch::GreaterOrEqual)) {
         return index;
     }
@@ -802,11 +819,11 @@ boost::optional<ndsize_t> getDataFrameIndex(const double position, const ndsize_
             tmp = 0.0;
         }
 
-        bool equals = fabs(tmp - position) <= numeric_limits<double>::epsilon();
+        bool equals = tmp == position;
         index = (match == PositionMatch::Greater && equals) ? static_cast<ndsize_t>(tmp + 1) : static_cast<ndsize_t>(tmp);
     } else if (match == PositionMatch::Less || match == PositionMatch::LessOrEqual) {
         tmp = floor(position);
-        bool equals = fabs(tmp - position) <= numeric_limits<double>::epsilon();
+        bool equals = tmp == position;
         if (match == PositionMatch::Less && equals) { 
             if (tmp >= 1) {
                 index = static_cast<ndsize_t>(tmp - 1);
@@ -816,7 +833,7 @@ boost::optional<ndsize_t> getDataFrameIndex(const double position, const ndsize_
         }
     } else {
         tmp = round(position);
-        if (fabs(tmp - position) <= numeric_limits<double>::epsilon()) {
+        if (tmp == position) {
             index = static_cast<ndsize_t>(tmp);
         }
     }
